@@ -23,6 +23,7 @@ import (
 )
 
 type G struct {
+	idle    bool // parked at an Idle gate: only picked when nothing else is enabled
 	ID      string
 	gid     int64
 	gate    chan struct{}
@@ -42,6 +43,8 @@ type Choice struct {
 	Cost   []int    `json:"-"` // deviation cost of each alternative
 	Labels []string `json:"-"`
 	Chosen string   `json:"c"` // label of the pick (replay divergence check)
+	// NoBranch: taken in a non-branching (setup) phase: alternatives are not explored
+	NoBranch bool `json:"-"`
 }
 
 type Sched struct {
@@ -61,6 +64,8 @@ type Sched struct {
 	steps           int
 	nDone           int
 	panics          []string
+	noBranch        bool
+	closed          map[uintptr]bool
 }
 
 var active atomic.Pointer[Sched]
@@ -137,6 +142,33 @@ func shortSite(file string, line int) string {
 		file = file[i+1:]
 	}
 	return fmt.Sprintf("%s:%d", file, line)
+}
+
+// NoBranch switches the non-branching phase on or off: choices made while it is on always take the
+// default and are not explored (deterministic setup / teardown of a harness).
+func NoBranch(on bool) {
+	if s := active.Load(); s != nil {
+		s.mu.Lock()
+		s.noBranch = on
+		s.mu.Unlock()
+	}
+}
+
+// Idle parks the caller until no other controlled goroutine is enabled (everything else has run to
+// a blocking operation or finished).
+func Idle() {
+	s := active.Load()
+	if s == nil {
+		return
+	}
+	g := s.current()
+	if g == nil {
+		return
+	}
+	s.mu.Lock()
+	g.idle = true
+	s.mu.Unlock()
+	s.parkAt(g, 0, "idle")
 }
 
 // Go starts f as a scheduler-controlled goroutine (pass-through: go f()).
@@ -277,14 +309,37 @@ func (sel *Select) Wait() int {
 		}
 	}
 	s.park(g, n)
-	rot := g.rot
-	// try phase: poll the communication cases starting at the scheduler-chosen rotation
 	var comm []int
 	for i, c := range sel.cases {
 		if c.dir != reflect.SelectDefault {
 			comm = append(comm, i)
 		}
 	}
+	// Which cases can fire right now? (the released goroutine is the only one performing operations)
+	// Only when two or more cases are ready (or cannot be probed) the polling start is a real choice.
+	var ready []int
+	for k, i := range comm {
+		if s.probe(sel.cases[i]) {
+			ready = append(ready, k)
+		}
+	}
+	rot := 0
+	if len(ready) >= 2 {
+		rc := Choice{Kind: "r", N: len(ready)}
+		s.mu.Lock()
+		rc.NoBranch = s.noBranch
+		s.mu.Unlock()
+		for j, k := range ready {
+			cost := 0
+			if j > 0 {
+				cost = 1
+			}
+			rc.Cost = append(rc.Cost, cost)
+			rc.Labels = append(rc.Labels, fmt.Sprintf("case%d", comm[k]))
+		}
+		rot = ready[s.decide(&rc)]
+	}
+	// try phase: poll the communication cases starting at the chosen one
 	for k := 0; k < len(comm); k++ {
 		i := comm[(k+rot)%len(comm)]
 		c := sel.cases[i]
@@ -321,6 +376,40 @@ func (sel *Select) Wait() int {
 		sel.cases[i].set(v, ok)
 	}
 	return i
+}
+
+// probe: can this case fire without blocking? Unbuffered channels cannot be probed without
+// consuming: they count as possibly ready.
+func (s *Sched) probe(c selCase) bool {
+	if !c.ch.IsValid() || c.ch.IsNil() {
+		return false
+	}
+	s.mu.Lock()
+	closed := s.closed[c.ch.Pointer()]
+	s.mu.Unlock()
+	if closed {
+		return true
+	}
+	if c.ch.Cap() == 0 {
+		return true // rendezvous: unknown
+	}
+	if c.dir == reflect.SelectRecv {
+		return c.ch.Len() > 0
+	}
+	return c.ch.Len() < c.ch.Cap()
+}
+
+// Close closes ch and remembers that it is closed (select readiness probing).
+func Close[T any](ch chan T) {
+	if s := active.Load(); s != nil {
+		s.mu.Lock()
+		if s.closed == nil {
+			s.closed = map[uintptr]bool{}
+		}
+		s.closed[reflect.ValueOf(ch).Pointer()] = true
+		s.mu.Unlock()
+	}
+	close(ch)
 }
 
 // chanClosed: TryRecv returned !ok; v is the zero Value when the receive would block and a valid
@@ -394,6 +483,16 @@ func Run(prefix []int, cfg Sched, body func()) *Sched {
 			}
 			continue
 		}
+		// goroutines parked at an Idle gate run only when nothing else can
+		nonIdle := enabled[:0:0]
+		for _, g := range enabled {
+			if !g.idle {
+				nonIdle = append(nonIdle, g)
+			}
+		}
+		if len(nonIdle) > 0 {
+			enabled = nonIdle
+		}
 		// canonical order: the goroutine that ran last first (continuing it is not a preemption), then by id
 		sort.SliceStable(enabled, func(i, j int) bool {
 			if (enabled[i] == s.last) != (enabled[j] == s.last) {
@@ -401,17 +500,21 @@ func Run(prefix []int, cfg Sched, body func()) *Sched {
 			}
 			return enabled[i].ID < enabled[j].ID
 		})
-		lastEnabled := s.last != nil && enabled[0] == s.last
 		c := Choice{Kind: "g", N: len(enabled)}
 		for i, g := range enabled {
+			// deviation bounding: the default (continue the running goroutine, else the oldest enabled one)
+			// is free, every other alternative is one deviation
 			cost := 0
-			if lastEnabled && i > 0 {
+			if i > 0 {
 				cost = 1
 			}
 			c.Cost = append(c.Cost, cost)
 			c.Labels = append(c.Labels, g.ID+"@"+g.site)
 		}
-		if s.AllowTimeChoice {
+		s.mu.Lock()
+		c.NoBranch = s.noBranch
+		s.mu.Unlock()
+		if s.AllowTimeChoice && !c.NoBranch {
 			c.N++
 			c.Cost = append(c.Cost, 1)
 			c.Labels = append(c.Labels, "time")
@@ -423,22 +526,9 @@ func Run(prefix []int, cfg Sched, body func()) *Sched {
 			continue
 		}
 		g := enabled[pick]
-		if g.selN > 1 {
-			rc := Choice{Kind: "r", N: g.selN}
-			for i := 0; i < g.selN; i++ {
-				cost := 0
-				if i > 0 {
-					cost = 1
-				}
-				rc.Cost = append(rc.Cost, cost)
-				rc.Labels = append(rc.Labels, fmt.Sprintf("rot%d", i))
-			}
-			g.rot = s.decide(&rc)
-		} else {
-			g.rot = 0
-		}
 		s.mu.Lock()
 		g.atGate = false
+		g.idle = false
 		s.last = g
 		s.mu.Unlock()
 		g.gate <- struct{}{}
